@@ -417,10 +417,10 @@ fn small_domain() -> Vec<LeafStmt> {
 
 pub fn run(ctx: &Ctx, which: Which) {
     let sizes_random: Vec<usize> = ctx.tier.pick(vec![1, 2, 3, 4, 5, 8], vec![1, 2, 3, 4, 5, 6, 7, 8]);
-    let big_sizes: Vec<usize> = ctx.tier.pick(vec![], vec![16, 32]);
+    let big_sizes: Vec<usize> = ctx.tier.pick(vec![16], vec![16, 32, 64]);
     let mult = if matches!(which, Which::C07 | Which::C09) { 1 } else { 2 };
     let n_random: usize = ctx.tier.pick(40_000 * mult, 300_000 * mult);
-    let n_big: usize = ctx.tier.pick(0, 400);
+    let n_big: usize = ctx.tier.pick(64, 600);
     let exhaustive_stride: usize = ctx.tier.pick(17, 1); // N=2 grid is sub-sampled in quick
     ctx.set_rule(&format!(
         "wrapper-only private-batch circuit (repo builder via hook, free child PIs) for N in {:?} + {:?}; cases: N=1 exhaustive and N=2 {} over a 384-value reduced slot domain \
